@@ -91,6 +91,21 @@ def check_templates(C, tab):
     return n
 
 
+def check_lexing(F, C, rule_prefix):
+    """the character-level half of 'every well-formed document is accepted': every line form of the grammar, over
+    its complete character sets, is tokenised as the token grammar assumes (used by C06 and C08 under their prefix)"""
+    global RP
+    RP = rule_prefix
+    try:
+        tab = lexer.extract(F)
+        for kind, msg in tab["problems"]:
+            C.ob(RP + "/lexer-" + kind, msg[:120], False, msg)
+        n = check_templates(C, tab)
+        C.floor(RP + "/lexer-template-cells", n, 1500, "lexer cells visited by the line templates")
+    finally:
+        RP = "C03"
+
+
 def junk_dfa():
     """well-formed grammar with exactly one junk line (KEY without colon / line starting with ERROR or COLON)"""
     wf = deb822_parse.wellformed_dfa()
